@@ -32,16 +32,17 @@ pub fn container_spec(container: Container, ctx: crate::gen::Ctx, cfg: FieldSpec
         }
     }
     match container {
-        Container::TupleStruct => TypeSpec { is_enum: false, variants: vec![VariantSpec { kind: VKind::Tuple, fields: fs }], style, shared_arg: None },
-        Container::NamedStruct => TypeSpec { is_enum: false, variants: vec![VariantSpec { kind: VKind::Named, fields: fs }], style, shared_arg: None },
-        Container::EnumTupleVariant => TypeSpec { is_enum: true, variants: vec![VariantSpec { kind: VKind::Unit, fields: vec![] }, VariantSpec { kind: VKind::Tuple, fields: fs }, VariantSpec { kind: VKind::Named, fields: vec![FieldSpec::plain(FTy::U8, 2)] }], style, shared_arg: None },
-        Container::EnumNamedVariant => TypeSpec { is_enum: true, variants: vec![VariantSpec { kind: VKind::Unit, fields: vec![] }, VariantSpec { kind: VKind::Named, fields: fs }, VariantSpec { kind: VKind::Tuple, fields: vec![FieldSpec::plain(FTy::U8, 2)] }], style, shared_arg: None },
+        Container::TupleStruct => TypeSpec { is_enum: false, variants: vec![VariantSpec { kind: VKind::Tuple, fields: fs }], style, shared_arg: None, discr: 0 },
+        Container::NamedStruct => TypeSpec { is_enum: false, variants: vec![VariantSpec { kind: VKind::Named, fields: fs }], style, shared_arg: None, discr: 0 },
+        Container::EnumTupleVariant => TypeSpec { is_enum: true, variants: vec![VariantSpec { kind: VKind::Unit, fields: vec![] }, VariantSpec { kind: VKind::Tuple, fields: fs }, VariantSpec { kind: VKind::Named, fields: vec![FieldSpec::plain(FTy::U8, 2)] }], style, shared_arg: None, discr: 0 },
+        Container::EnumNamedVariant => TypeSpec { is_enum: true, variants: vec![VariantSpec { kind: VKind::Unit, fields: vec![] }, VariantSpec { kind: VKind::Named, fields: fs }, VariantSpec { kind: VKind::Tuple, fields: vec![FieldSpec::plain(FTy::U8, 2)] }], style, shared_arg: None, discr: 0 },
     }
 }
 
 fn form_for(ctx: crate::gen::Ctx) -> KeyForm {
     match ctx {
-        crate::gen::Ctx::Alone | crate::gen::Ctx::FirstOf2 => KeyForm::Method,
+        crate::gen::Ctx::Alone => KeyForm::Inherent,
+        crate::gen::Ctx::FirstOf2 => KeyForm::Method,
         crate::gen::Ctx::LastOf2 => KeyForm::Twice,
         crate::gen::Ctx::MiddleOf3 => KeyForm::Nested,
     }
@@ -158,7 +159,7 @@ fn gen_m3(ch: &mut Ch, thorough: bool) -> Option<Case> {
     for i in 0..n {
         let c = *ch.of(&alpha);
         let c = if flavour == 2 { c } else { c };
-        let mut f = FieldSpec { ty: FTy::V, dom: 3, combo: c, form: [KeyForm::Method, KeyForm::Twice, KeyForm::Nested][i % 3], identity: None };
+        let mut f = FieldSpec { ty: FTy::V, dom: 3, combo: c, form: [KeyForm::Inherent, KeyForm::Twice, KeyForm::Nested, KeyForm::Method][i % 4], identity: None };
         if c.is_plain() || (!c.get(Ord).custom()) {
             // fields without key/by may have any type of the pool
             match flavour {
@@ -179,16 +180,20 @@ fn gen_m3(ch: &mut Ch, thorough: bool) -> Option<Case> {
         return None;
     }
     let ts = match shape {
-        0 => TypeSpec { is_enum: false, variants: vec![VariantSpec { kind: if n == 0 { VKind::Unit } else { VKind::Tuple }, fields }], style: KeyStyle::Distinct, shared_arg: None },
-        1 => TypeSpec { is_enum: false, variants: vec![VariantSpec { kind: VKind::Named, fields }], style: KeyStyle::Distinct, shared_arg: None },
-        2 => TypeSpec { is_enum: true, variants: vec![VariantSpec { kind: VKind::Tuple, fields: fields.clone() }, VariantSpec { kind: VKind::Unit, fields: vec![] }, VariantSpec { kind: VKind::Named, fields }], style: KeyStyle::Distinct, shared_arg: None },
+        0 => TypeSpec { is_enum: false, variants: vec![VariantSpec { kind: if n == 0 { VKind::Unit } else { VKind::Tuple }, fields }], style: KeyStyle::Distinct, shared_arg: None, discr: 0 },
+        1 => TypeSpec { is_enum: false, variants: vec![VariantSpec { kind: VKind::Named, fields }], style: KeyStyle::Distinct, shared_arg: None, discr: 0 },
+        2 => TypeSpec { is_enum: true, variants: vec![VariantSpec { kind: VKind::Tuple, fields: fields.clone() }, VariantSpec { kind: VKind::Unit, fields: vec![] }, VariantSpec { kind: VKind::Named, fields }], style: KeyStyle::Distinct, shared_arg: None, discr: 0 },
         _ => {
             let rev: Vec<FieldSpec> = fields.iter().rev().cloned().collect();
-            TypeSpec { is_enum: true, variants: vec![VariantSpec { kind: VKind::Unit, fields: vec![] }, VariantSpec { kind: VKind::Named, fields }, VariantSpec { kind: VKind::Tuple, fields: rev }, VariantSpec { kind: VKind::Tuple, fields: vec![] }], style: KeyStyle::Distinct, shared_arg: None }
+            TypeSpec { is_enum: true, variants: vec![VariantSpec { kind: VKind::Unit, fields: vec![] }, VariantSpec { kind: VKind::Named, fields }, VariantSpec { kind: VKind::Tuple, fields: rev }, VariantSpec { kind: VKind::Tuple, fields: vec![] }], style: KeyStyle::Distinct, shared_arg: None, discr: 0 }
         }
     };
     // generic types additionally with an explicit shared bound that stops the default bounds
     let mut ts = ts;
+    // enums also with explicit discriminants in decreasing order
+    if ts.is_enum {
+        ts.discr = ch.pick(3) as u8;
+    }
     if ts.generic() && ch.flag() {
         ts.shared_arg = Some("bound(T: ::core::cmp::Ord + ::core::cmp::PartialEq + ::core::cmp::Eq + ::core::cmp::PartialOrd)");
     }
